@@ -354,6 +354,8 @@ def run_C16(ctx, K):
     stream("br", ["-mode", "branching", "-len", "4" if q else "5", "-vals", "2" if q else "1"],
            100 if q else 300, "operations on any earlier version")
     stream("rnd", ["-mode", "random", "-n", str(tier_n(ctx, 200, 3000))], tier_n(ctx, 80, 600), "random")
+    # adversarial shapes for the delete path: every pair of sibling subtrees in which size and height can disagree
+    K.run_tool(ctx, b, ["-mode", "shapes", "-len", str(tier_n(ctx, 9, 11)), "-seed", str(ctx.seed)], "pmap-shapes")
     # the map is generic in V: values that are not comparable, or whose == differs from identity (implementation only)
     K.run_tool(ctx, b, ["-mode", "valuetypes", "-n", str(tier_n(ctx, 100, 2000)), "-ops", "40", "-seed", str(ctx.seed)], "pmap-valuetypes")
 
